@@ -52,6 +52,11 @@
 //!              `for x in v.iter_mut()` / `for (i, x) in v.iter_mut().enumerate()` (≡ index loop with `x` an alias of `v[i]`)
 //!   stage 4    `VecDeque` (list; `push_back`, `pop_front`), `while let PAT = e` (fuelled), `&mut uN` parameters (threaded),
 //!              `Bytes::slice(a..b)`, `uN::div_ceil`, `octets::varint_len`
+//!   stage 5    `Result` fns with `&mut` state return `Res (E × State) (State × T)` (the `Err` carries the state);
+//!              `BTreeMap<uN, V>` / `HashMap<uN, V>` as key-sorted association lists (`contains_key get insert remove len
+//!              is_empty`, `entry(k).or_insert_with(|| e)` / `or_insert(e)` as alias of the entry, `remove` as value,
+//!              `for (k, v) in btree.iter()`; HashMap iteration rejected), `Duration` `+ -`, `from_secs`, `from_millis`,
+//!              nested `const`, `Option::expect`
 //!   not supported: `loop`, labelled loops, `break`/`continue` in `for`, closures, generics, traits, signed integers, floats,
 //!              references stored in data, `&mut` parameters other than `self` and the octets cursors,
 //!              `Err` returned from a `&mut self` method after `self` was mutated.
